@@ -20,9 +20,9 @@ Output: coq/Gen_collsites.v with
   Definition gen_sites : list (string * string * nat)   (sorted; function, MPI call, ordinal of
                                                           that call among the calls of the same
                                                           MPI function in that C function, from 1)
-  Definition gen_site_lines : list (string * string * nat * string * nat) (… file, line; used only by
-                                                          the correspondence harness to map return
-                                                          addresses to sites)
+  (with --json <file>: the same list with source file and line of every site, used by the
+   correspondence harness to map return addresses to sites; not part of the Coq file, so that
+   moving code does not change Gen_collsites.v)
 """
 import re, sys, os, subprocess, json, glob
 
@@ -217,9 +217,6 @@ def main():
          'From Coq Require Import String List.', 'Import ListNotations.', 'Local Open Scope string_scope.', '',
          'Definition gen_sites : list (string * string * nat) := [']
     o.append(';\n'.join('  (%s, %s, %d)' % (coq_str(f), coq_str(c), n) for f, c, n, _, _ in sites))
-    o.append('].\n')
-    o.append('Definition gen_site_lines : list (string * string * nat * string * nat) := [')
-    o.append(';\n'.join('  (%s, %s, %d, %s, %d)' % (coq_str(f), coq_str(c), n, coq_str(fl), ln) for f, c, n, fl, ln in sites))
     o.append('].\n')
     o.append('Definition gen_nsites : nat := %d.' % len(sites))
     # error codes the model of the safe-mode blocks needs and tools/tr_consts.py does not emit
